@@ -28,6 +28,7 @@ struct Block {
     size_t align;
     uint32_t id;
     bool live;
+    bool checked = false;
 };
 
 using Table = std::map<uintptr_t, Block, std::less<uintptr_t>, MallocAlloc<std::pair<const uintptr_t, Block>>>;
@@ -77,8 +78,40 @@ void begin_tracking() {
     g_tracking = true;
 }
 
+// freed node / value blocks stay poisoned until the next region starts: any other byte in one of them is a write after free
+static void verify_quarantine_locked() {
+    for (auto& kv : table()) {
+        Block& b = kv.second;
+        if (b.live || b.align == 0 || b.checked) continue;
+        const auto* p = reinterpret_cast<const unsigned char*>(kv.first); // NOLINT
+        for (size_t i = 0; i < b.size; ++i) {
+            if (p[i] != kPoison) {
+                b.checked = true; // report once
+                char buf[200];
+                snprintf(buf, sizeof(buf), "write after free: block #%u (size %zu, align %zu) was modified at offset %zu after it was released", b.id, b.size, b.align, i);
+                // the error list allocates and frees through the hooks below: drop the lock and the tracking flag meanwhile
+                // (the strings are untracked, so the table is not modified while it is being iterated)
+                g_lock.clear(std::memory_order_release);
+                bool t = g_tracking;
+                g_tracking = false;
+                errs().emplace_back(buf);
+                g_tracking = t;
+                while (g_lock.test_and_set(std::memory_order_acquire)) {}
+                break;
+            }
+        }
+    }
+}
+
+void verify_quarantine() {
+    if (passthrough_free) return;
+    Guard g;
+    verify_quarantine_locked();
+}
+
 void end_tracking() {
     Guard g;
+    if (!passthrough_free) verify_quarantine_locked();
     g_tracking = false;
 }
 
@@ -143,8 +176,12 @@ long total_allocs() { return g_allocs; }
 long total_frees() { return g_frees; }
 const std::vector<std::string>& errors() { return errs(); }
 void clear_errors() {
-    Guard g;
-    errs().clear();
+    // the strings are released through operator delete, which takes the lock itself: destroy them outside of it
+    std::vector<std::string> old;
+    {
+        Guard g;
+        old.swap(errs());
+    }
 }
 
 static void* do_alloc(size_t size, size_t align) {
@@ -159,7 +196,7 @@ static void* do_alloc(size_t size, size_t align) {
     if (g_tracking) {
         Guard g;
         if (g_tracking) {
-            Block b{size, align, g_seq++, true};
+            Block b{size, align, g_seq++, true, false};
             table()[reinterpret_cast<uintptr_t>(p)] = b; // NOLINT
             g_allocs++;
         }
